@@ -431,6 +431,24 @@ func Report(t testing.TB, rec *Recorder, c any, err error) {
 	t.Errorf("violation %s: %s", v.Key, v.Detail)
 }
 
+// ReportAndExit is for a violation that leaves the check process itself unusable (a process-wide lock held for good, say):
+// shrinking would only re-run cases that hang. It writes the replay, prints the VIOLATION line, writes the evidence and
+// ends the process with status 1.
+func ReportAndExit(rec *Recorder, test string, c any, v *Violation) {
+	if Known(rec.ID, v.Key) {
+		rec.Excluded(v.Key)
+		return
+	}
+	rec.mu.Lock()
+	rec.violations++
+	rec.mu.Unlock()
+	p := writeReplay(rec.ID, test, v, c)
+	fmt.Printf("VIOLATION property=%s replay=%s\n", rec.ID, p)
+	fmt.Printf("  detail: %s: %s\n", v.Key, v.Detail)
+	rec.Write()
+	os.Exit(1)
+}
+
 // ReplayIfRequested runs the single saved case named by VERIF_REPLAY (if it belongs to this test) through run
 // and reports; it returns true when the caller must not generate anything.
 func ReplayIfRequested[C any](t *testing.T, rec *Recorder, run func(C) error) bool {
